@@ -58,6 +58,8 @@ def run_harness(pid, mode, arg, repo, seed, timeout=600):
     h = os.path.join(HERE, "harness", f"{pid}.py")
     if not os.path.exists(h):
         return None
+    if not os.path.exists(os.path.realpath(VENV_PY)):
+        return {"rc": 127, "out": "", "err": f"{VENV_PY} is not runnable here: native replay / cross-check skipped"}
     env = dict(os.environ)
     env["VERIF_REPO"] = repo
     env["PYTHONPATH"] = repo + os.pathsep + HERE
@@ -224,6 +226,9 @@ def main():
                     lines.append(f"VIOLATION property={pid} replay={rp}")
                     for x in new[:5]:
                         lines.append(f"  bounded stand-in: {x}")
+            elif h and h["rc"] == 127:
+                lines.append(f"NOTE property={pid} bounded stand-in skipped: {h['err']}")
+                bounded = {"skipped": h["err"]}
             elif h and h["rc"] not in (0, 1):
                 checker_errors.append(f"bounded stand-in crashed rc={h['rc']}: {h['err'][-300:]}")
             for kf in (bounded or {}).get("known_findings", []):
@@ -243,6 +248,9 @@ def main():
                 lines.append(f"VIOLATION property={pid} replay={rp}")
             elif h and h["rc"] == 3:
                 checker_errors.append(f"cross-check: trusted axiom or encoder summary disagrees with CPython: {h['out'][-500:]}")
+            elif h and h["rc"] == 127:
+                lines.append(f"NOTE property={pid} native cross-check skipped: {h['err']}")
+                cross = {"skipped": h["err"]}
             elif h and h["rc"] not in (0,):
                 checker_errors.append(f"cross-check crashed rc={h['rc']}: {h['err'][-300:]}")
 
